@@ -63,6 +63,12 @@ def illTypedVacuous (S : Schema) (D : Frame) : Bool :=
           && ix.checks.any (fun ck => checkRaisesOnColumn ck.b l.dtype))
       | none => false)
 
+structure GCase where
+  groups : List (List String)
+  keep : Keep
+  frame : Frame
+  deriving FromJson
+
 def answer (j : Json) : Except String Json := do
   match j.getObjVal? "mode" with
   | .ok (.str "builtin") =>
@@ -85,6 +91,11 @@ def answer (j : Json) : Except String Json := do
     return Json.mkObj [
       ("wf", toJson (c.frame.WF && c.frame.cols.length == 1 && c.frame.index.length == 1)),
       ("errors", toJson errs), ("accepts", toJson errs.isEmpty), ("sat", toJson ok), ("inK", toJson inK)]
+  | .ok (.str "uniqueGroups") =>
+    let c : GCase ← fromJson? j
+    return Json.mkObj [
+      ("wf", toJson c.frame.WF),
+      ("dups", toJson (dupGroups c.keep c.groups c.frame))]
   | .ok (.str "aggregate") =>
     let c : ACase ← fromJson? j
     return Json.mkObj [("uniqueValuesEq", toJson (uniqueValuesEq c.vs true c.vals))]
